@@ -25,6 +25,15 @@ Theorem C06_wait : forall P cfg s a rest s' ls,
 Proof. exact wait_only_when_all_done. Qed.
 Print Assumptions C06_wait.
 
+(* ... in particular no Async+Sequential delivery is still queued behind another one *)
+Theorem C06_wait_queues_empty : forall P cfg s a rest s' ls,
+  reachable P cfg s ->
+  (assoc_get (code s) a = Some (IDo AWait :: rest) \/ exists sid, assoc_get (code s) a = Some (IWaiterDone sid :: rest)) ->
+  mstep P cfg s a = Some (s', ls) ->
+  forall rid, queue s rid = [].
+Proof. exact wait_only_when_queues_empty. Qed.
+Print Assumptions C06_wait_queues_empty.
+
 (* The store is closed only by a Shutdown that found its waiter done, in the very step that returns nil;
    the context-error branch never closes it. *)
 Theorem C06_shutdown_close : forall P cfg s a i rest s' ls,
